@@ -19,10 +19,10 @@ RULE = (
 )
 ASSUMPTIONS = [
     "decisions whose reference margin (requested vs available size, cost vs cash) is below 1e-9 are not asserted: book sizes are floats",
-    "limit prices are generated at least 0.25% away from neighbouring levels, so a +-0.1% window selects at most one level",
+    "a limit price selects the first level (best first) within +-0.1% of it; books of expensive options have neighbouring levels inside one such window",
 ]
 MIN_NONTRIVIAL = {"quick": 1000, "thorough": 20000}
-REQUIRED_LABELS = ["buy.fill", "sell.fill", "multi_level", "partly_consumed_level", "mode.market", "mode.token", "mode.usd", "mode.cap", "reject.depth", "reject.cash", "reject.not_held", "refresh", "cfg.BTC", "sizes.float", "estimate_cost"]
+REQUIRED_LABELS = ["buy.fill", "sell.fill", "multi_level", "partly_consumed_level", "mode.market", "mode.token", "mode.usd", "mode.cap", "reject.depth", "reject.cash", "reject.not_held", "refresh", "cfg.BTC", "sizes.float", "estimate_cost", "limit.window_two_levels"]
 
 EPS = Decimal("1e-9")
 
@@ -116,9 +116,8 @@ def body(case, ctx: Ctx):
                 kw["max_mark_price_multiple"] = Decimal(mode[3])
             labels.add(f"mode.{mode[0]}" if not (len(mode) > 3 and mode[3]) else "mode.cap")
             est = None
-            exact_level = mode[0] == "token" and any(dd(lv[0]) == Decimal(mode[1]) for lv in side0)
-            # (the estimate takes a limit price literally; buy() accepts +-0.1% around a level - only literal prices are compared)
-            if is_buy and (mode[0] == "market" or exact_level) and "max_mark_price_multiple" not in kw and not any(tn == name and tb for tn, tb, _ in touched):
+            # (only market orders: the estimate takes a limit price literally while buy() takes the first level within +-0.1%)
+            if is_buy and mode[0] == "market" and not any(tn == name and tb for tn, tb, _ in touched):
                 # the public cost estimate of the same order on an untouched book (it reads the bar's data row)
                 try:
                     est = m.estimate_cost(name, Decimal(amount), "buy", kw.get("price_in_token"))
@@ -130,6 +129,10 @@ def body(case, ctx: Ctx):
             except Exception as e:  # noqa: a rejected order is an outcome
                 ok, err, ret = False, e, None
             exp = match(cfg, side0, amount, mode, ins["mark"], ins["underlying"], is_buy)
+            if mode[0] in ("token", "usd"):
+                lp_ = Decimal(mode[1]) / (dd(ins["underlying"]) if mode[0] == "usd" else 1)
+                if sum(1 for lv in side0 if Decimal("0.999") * lp_ < dd(lv[0]) < Decimal("1.001") * lp_) >= 2:
+                    labels.add("limit.window_two_levels")
             if ins["state"] != "open":
                 exp = ("reject", "closed instrument")
             margin = Decimal(1)
